@@ -171,7 +171,7 @@ carquet_status_t carquet_schema_add_column(
 
     /* Track as leaf */
     schema->leaf_indices[schema->num_leaves] = elem_idx;
-    schema->max_def_levels[schema->num_leaves] = (repetition == CARQUET_REPETITION_OPTIONAL) ? 1 : 0;
+    schema->max_def_levels[schema->num_leaves] = elem->max_def_level;
     schema->max_rep_levels[schema->num_leaves] = (repetition == CARQUET_REPETITION_REPEATED) ? 1 : 0;
     schema->num_leaves++;
 
